@@ -48,6 +48,7 @@ CONSTANTS
   FIXOHEXP = TRUE
   FIXOHFLG = TRUE
   FIXOHSEC = TRUE
+  PEERIMPL = FALSE
   XorAcc <- SymXor
   MAXLEN = {maxlen}
   ALLCH = {allch}
@@ -68,6 +69,7 @@ CONSTANTS
   FIXOHEXP = {fixohexp}
   FIXOHFLG = {fixohflg}
   FIXOHSEC = {fixohsec}
+  PEERIMPL = FALSE
   XorAcc <- SymXor
   GEN = {gen}
 INVARIANTS ErrIsAtomic StdAgree EndsSwap ExpiryTotal SetSecondAgree Emit
@@ -84,10 +86,28 @@ CONSTANTS
   FIXOHEXP = TRUE
   FIXOHFLG = TRUE
   FIXOHSEC = TRUE
+  PEERIMPL = FALSE
   XorAcc <- SymXor
   MAXLEN = {maxlen}
   GEN = TRUE
 INVARIANTS ModelErrIsAtomic AcceptedAgrees AcceptedFits Emit
+"""
+
+
+SP_TMPL = """SPECIFICATION Spec
+CONSTANTS
+  CHMOD = 64
+  U32CAP = 100000
+  FIXREV = TRUE
+  FIXWRAP = TRUE
+  FIXHOPS = TRUE
+  FIXOHEXP = TRUE
+  FIXOHFLG = TRUE
+  FIXOHSEC = TRUE
+  PEERIMPL = FALSE
+  XorAcc <- SymXor
+  GEN = TRUE
+INVARIANTS SPErrIsAtomic StoredIsFresh SPInvolution FingerprintsStable EndpointsSwap Emit
 """
 
 
@@ -131,7 +151,7 @@ def replay_cells(c, binp, cells, tag):
     inp = os.path.join(c.work, "cells_%s.ndjson" % tag)
     outp = os.path.join(c.work, "cells_%s_out.ndjson" % tag)
     write_ndjson(inp, cells)
-    rc, so = c.sh([binp, "c12-replay", inp, outp], timeout=3000)
+    rc, so = c.sh([binp, "c12-replay", inp, outp], timeout=9000)
     if rc is not None and rc < 0:
         # the harness process was killed by a signal while it executed the code under test (only unsafe
         # code in /repo can do that): an observation, not a tool problem (DESIGN.md S1)
@@ -148,12 +168,13 @@ def replay_cells(c, binp, cells, tag):
             obs = res.get("obs") or {}
             # vacuity counters are taken from the GENERATED cell (specification side), never from
             # what the code under test answered
-            if cell.get("fam") in ("onehop", "model"):
+            if cell.get("fam") in ("onehop", "model", "scionpath"):
                 fam = cell["fam"]
                 stats[fam] = stats.get(fam, 0) + 1
                 if fam == "model" and cell.get("mvalid"):
                     stats["model_accepted"] = stats.get("model_accepted", 0) + 1
-                desc = json.dumps({k: cell.get(k) for k in ("cd", "ts", "in1", "in2", "e1", "e2", "fl2")}) if fam == "onehop" else json.dumps(cell["model"])
+                desc = (json.dumps({k: cell.get(k) for k in ("cd", "ts", "in1", "in2", "e1", "e2", "fl2")}) if fam == "onehop"
+                        else json.dumps(cell["model"]) if fam == "model" else json.dumps(cell["before"]))
                 if not res["conf"]:
                     stats["mismatch"] += 1
                     m = res["mis"][0]
@@ -231,7 +252,7 @@ def run(c):
     for fam, allch, depth in (("ptr", "TRUE" if thorough else "FALSE", 2 if thorough else 1), ("exp", "FALSE", 1)):
         p = cfg(c, "mc_%s.cfg" % fam, MC_TMPL.format(chmod=64, fixrev="TRUE", fixhops="TRUE", maxlen=3, allch=allch,
                                                      depth=depth, gen="TRUE", family=fam))
-        r = c.tlc(SD, "MC_PathOps", cfg=p, timeout=6000)
+        r = c.tlc(SD, "MC_PathOps", cfg=p, timeout=12000)
         for inv in r.violated:
             c.violation("spec:%s" % inv, "design-level: invariant %s violated on MC_PathOps (%s family); see %s" % (inv, fam, r.out_path), {"tlc_out": r.out_path})
         if r.ok:
@@ -243,7 +264,7 @@ def run(c):
             d["fam"] = "std"
         all_cells += cells
     # the model side: owned StandardPath values no byte string decodes to (empty segments, current_hop_field >= 64)
-    r = c.tlc(SD, "MC_PathModel", cfg=cfg(c, "mc_model.cfg", MDL_TMPL.format(maxlen=3 if thorough else 2)), timeout=3000)
+    r = c.tlc(SD, "MC_PathModel", cfg=cfg(c, "mc_model.cfg", MDL_TMPL.format(maxlen=3 if thorough else 2)), timeout=9000)
     for inv in r.violated:
         c.violation("spec:model:%s" % inv, "design-level: invariant %s violated on MC_PathModel; see %s" % (inv, r.out_path), {"tlc_out": r.out_path})
     mc = c.printed_json(r, "MCELL")
@@ -252,8 +273,18 @@ def run(c):
     for d in mc:
         d["fam"] = "model"
     all_cells += mc
+    # the ScionPath level: end points, metadata lists, next hop, cached fingerprints / expiry under reversal
+    r = c.tlc(SD, "MC_ScionPath", cfg=cfg(c, "mc_scionpath.cfg", SP_TMPL), timeout=9000)
+    for inv in r.violated:
+        c.violation("spec:scionpath:%s" % inv, "design-level: invariant %s violated on MC_ScionPath; see %s" % (inv, r.out_path), {"tlc_out": r.out_path})
+    spc = c.printed_json(r, "SPCELL")
+    if not spc:
+        c.fail_tool("generation run printed no ScionPath cells")
+    for d in spc:
+        d["fam"] = "scionpath"
+    all_cells += spc
     # one-hop paths: small decision table
-    r = c.tlc(SD, "MC_OneHop", cfg=cfg(c, "mc_onehop.cfg", OH_TMPL.format(fixohexp="TRUE", fixohsec="TRUE", fixohflg="TRUE", gen="TRUE")), timeout=3000)
+    r = c.tlc(SD, "MC_OneHop", cfg=cfg(c, "mc_onehop.cfg", OH_TMPL.format(fixohexp="TRUE", fixohsec="TRUE", fixohflg="TRUE", gen="TRUE")), timeout=9000)
     for inv in r.violated:
         c.violation("spec:onehop:%s" % inv, "design-level: invariant %s violated on MC_OneHop; see %s" % (inv, r.out_path), {"tlc_out": r.out_path})
     oh = c.printed_json(r, "OHCELL")
@@ -262,7 +293,10 @@ def run(c):
     for d in oh:
         d["fam"] = "onehop"
     all_cells += oh
-    for fe, fs, ff, inv in (("FALSE", "TRUE", "TRUE", "ExpiryTotal"), ("TRUE", "FALSE", "TRUE", "SetSecondAgree"), ("TRUE", "TRUE", "FALSE", "SetSecondAgree")):
+    ohself = [("TRUE", "FALSE", "TRUE", "SetSecondAgree")]
+    if thorough:
+        ohself += [("FALSE", "TRUE", "TRUE", "ExpiryTotal"), ("TRUE", "TRUE", "FALSE", "SetSecondAgree")]
+    for fe, fs, ff, inv in ohself:
         rb = c.tlc(SD, "MC_OneHop", cfg=cfg(c, "mc_onehop_unfixed_%s_%s%s.cfg" % (inv, fs[0], ff[0]), OH_TMPL.format(fixohexp=fe, fixohsec=fs, fixohflg=ff, gen="FALSE")), expect_violation=True, coverage=False)
         if inv not in rb.violated:
             c.fail_tool("oracle self-check failed: the pinned one-hop variant no longer violates %s in the model" % inv)
@@ -277,15 +311,16 @@ def run(c):
         expect_violation=True, coverage=False)
     if not ({"Position", "AgreeReverse", "Involution"} & set(r1.violated)):
         c.fail_tool("oracle self-check failed: FIXHOPS=FALSE with a 2-bit CurrHF no longer violates Position/AgreeReverse")
-    r2 = c.tlc(SD, "MC_PathOps", cfg=cfg(c, "mc_smallptr.cfg", MC_TMPL.format(
-        chmod=4, fixrev="TRUE", fixhops="TRUE", maxlen=3, allch="TRUE", depth=1, gen="FALSE", family="ptr")), coverage=False)
-    for inv in r2.violated:
-        c.violation("spec:%s:small-currhf" % inv, "design-level: invariant %s violated with a 2-bit CurrHF field; see %s" % (inv, r2.out_path), {"tlc_out": r2.out_path})
+    if thorough:
+        r2 = c.tlc(SD, "MC_PathOps", cfg=cfg(c, "mc_smallptr.cfg", MC_TMPL.format(
+            chmod=4, fixrev="TRUE", fixhops="TRUE", maxlen=3, allch="TRUE", depth=1, gen="FALSE", family="ptr")), coverage=False)
+        for inv in r2.violated:
+            c.violation("spec:%s:small-currhf" % inv, "design-level: invariant %s violated with a 2-bit CurrHF field; see %s" % (inv, r2.out_path), {"tlc_out": r2.out_path})
     c.cov["exhaustive"] = True
 
     # ---- 2b. replay on the real code -------------------------------------------------------------------
     st = replay_cells(c, binp, all_cells, "all")
-    for need in ("wf", "rev_ok", "rev_err", "model", "model_accepted", "onehop"):
+    for need in ("wf", "rev_ok", "rev_err", "model", "model_accepted", "onehop", "scionpath"):
         if st.get(need, 0) == 0:
             c.fail_tool("vacuous replay: no cell with %s" % need)
     for cls in ("curr_hf-out-of-range", "curr_inf-out-of-range", "zero-length-middle-segment", "no-first-segment", "pointers-in-range"):
@@ -303,7 +338,7 @@ def run(c):
     ev = os.path.join(c.work, "trace_c12.ndjson")
     resj = os.path.join(c.work, "trace_c12.json")
     runs = 1500 if thorough else 350
-    rc, so = c.sh([binp, "record", ev, resj, "c12"], env={"VERIF_RUNS": runs}, timeout=3000)
+    rc, so = c.sh([binp, "record", ev, resj, "c12"], env={"VERIF_RUNS": runs}, timeout=9000)
     if rc is not None and rc < 0:
         c.violation("Crash:record:signal%d" % -rc, "the recording harness died with signal %d while calling the path API (memory-unsafe behaviour of the code under test)" % -rc,
                     {"kind": "crash", "step": "record"})
@@ -311,7 +346,7 @@ def run(c):
     if rc != 0:
         c.fail_tool("record harness failed rc=%s %s" % (rc, (so or "")[-500:]))
     res = json.load(open(resj))
-    r = c.tlc(SD, "Trace_PathHeader", mode="trace", env={"TRACE": ev}, timeout=3000)
+    r = c.tlc(SD, "Trace_PathHeader", mode="trace", env={"TRACE": ev}, timeout=9000)
     if r.violated:
         for inv in r.violated:
             c.violation("trace:%s" % inv, "invariant %s violated on a recorded execution of the real path API; TLC output %s" % (inv, r.out_path),
